@@ -27,7 +27,7 @@ def mk_running(w, net, can_id, data_items, period, modify=False, remote=False):
                 is_extended_id=False, is_error_frame=False, timestamp=0.0, channel=None, dlc=len(data_items),
                 is_fd=False, is_rx=True) if not w.native else _native_msg(can_id, data_items, remote)
     t = w.obj("env.stubs:TaskStubModify" if modify else "env.stubs:TaskStub", msg=msg, period=period,
-              arbitration_id=can_id, payload=w.bytes_of(data_items), remote=remote)
+              arbitration_id=can_id, payload=w.bytes_of(data_items), remote=remote, extended=False)
     return w.obj(PMT, bus=bus_of(w, net), period=period, msg=msg, _task=t), t
 
 
@@ -50,8 +50,9 @@ def live_after(s, initially):
 def task_sends(s, t, can_id, payload_items, period, remote=False):
     f = t.fields
     it = s.w.interp
+    # ... in the frame format the id calls for (extended exactly above 0x7FF; all ids used here are 11-bit)
     return And(compare("==", f["arbitration_id"], can_id), S.bytes_are(f["payload"], payload_items),
-               it.equals(f["period"], period), Iff(f["remote"], remote))
+               it.equals(f["period"], period), Iff(f["remote"], remote), Iff(f["extended"], compare(">", can_id, 0x7FF)))
 
 
 # -------------------------------------------------------------------------------------------- SYNC
